@@ -272,6 +272,8 @@ class Filtration(PoupoolActor):
         self.__machine.add_transition(
             "heating_delayed", "heating_delay_overflow", "opening_overflow", unless="tank_is_low"
         )
+        # The tank became low during the delay, the pool cannot be opened: back to eco
+        self.__machine.add_transition("heating_delayed", ["heating_delay_standby", "heating_delay_overflow"], "eco")
         self.__machine.add_transition("overflow", ["eco", "closing"], "opening_overflow", unless="tank_is_low")
         self.__machine.add_transition("overflow", ["standby", "comfort", "reload"], "overflow")
         self.__machine.add_transition("overflow", "overflow_boost", "overflow_normal")
@@ -601,7 +603,9 @@ class Filtration(PoupoolActor):
                 self._proxy.eco_tank.defer()
         else:
             self.__stir_mode.update(now)
-            self.do_delay(self.STATE_REFRESH_DELAY, self.do_repeat_eco_normal.__name__)
+        # Keep polling. The transitions requested above are conditional and can be refused (the
+        # tank state can change in between). A state change cancels the timer.
+        self.do_delay(self.STATE_REFRESH_DELAY, self.do_repeat_eco_normal.__name__)
 
     @do_repeat()
     def on_enter_eco_tank(self):
@@ -680,7 +684,9 @@ class Filtration(PoupoolActor):
         else:
             # Update the stir mode at the end so we do not switch the boost pumps for nothing.
             self.__stir_mode.update(now)
-            self.do_delay(self.STATE_REFRESH_DELAY, self.do_repeat_eco_waiting.__name__)
+        # Keep polling. The backwash transition is conditional and can be refused (the tank state
+        # can change in between). A state change cancels the timer.
+        self.do_delay(self.STATE_REFRESH_DELAY, self.do_repeat_eco_waiting.__name__)
 
     def on_enter_standby(self):
         logger.info("Entering standby state")
